@@ -142,6 +142,8 @@ struct Ctx {
     halign: usize,
     /// minimum alignment to print on the next op line instead of the handle's (a by-value handle already carries its new alignment)
     ma_override: Option<usize>,
+    /// (current chunk, position, allocated) printed on the previous op line, for the failed-operation oracle
+    prev_state: Option<(String, usize, usize)>,
     up: bool,
     ga: bool,
     de: bool,
@@ -276,6 +278,22 @@ fn log_op(ctx: &mut Ctx, sc: &dyn ScopeOps, optext: &str, outcome: &str) -> Dump
         ctx.blocks.len(),
         ctx.checksum()
     );
+    // ---- C07: an operation that reports failure leaves the arena where it was (same current chunk, same position,
+    // same allocated byte count); both handles of a claim are kept apart by the `cur` text (`C` for the claimed one)
+    {
+        let now = (cur.clone(), cur_pos(&d, ctx.up), d.typed.allocated);
+        if outcome == "err" && !optext.starts_with("on_claimed") {
+            if let Some(prev) = &ctx.prev_state {
+                if prev.0 != "C" && now.0 != "C" && *prev != now {
+                    ctx.oracle(
+                        "C07",
+                        format!("`{optext}` FAILED but changed the arena: current chunk {} -> {}, position {:#x} -> {:#x}, allocated {} -> {}", prev.0, now.0, prev.1, now.1, prev.2, now.2),
+                    );
+                }
+            }
+        }
+        ctx.prev_state = Some(now);
+    }
     // ---- C12: a request creates at most one chunk, and the chunk created for it serves it
     let grants = resps.matches(" G ").count();
     if grants > 1 && !optext.starts_with("try_with") {
